@@ -25,4 +25,19 @@ def _c19_f1(case, why, f):
     return bool(m) and m.group(1) == m.group(2)
 
 
-MATCHERS = {"C19/F1": _c19_f1}
+def _c07_f2(case, why, f):
+    """C07/F2: the alteration is exactly Link <-> {"/": cid} or Bytes <-> {"/": {"bytes": ...}} (DAG-JSON
+    cannot tell them apart); any other undetected alteration is a new violation."""
+    m = re.search(r"C07-undetected kind=(\S+)", why)
+    return bool(m) and m.group(1) in ("nb-link-to-slashmap", "nb-bytes-to-slashmap", "fct-link-to-slashmap")
+
+
+def _c07_f3(case, why, f):
+    """C07/F3: a freshly issued token that does not verify AND carries a null among its caveat / fact
+    values (go-ipld-prime's bindnode cannot decode null into an `Any` field)."""
+    return "C07-unverified" in why and any('"t":"null"' in a for a in case.get("args", []))
+
+
+import json
+
+MATCHERS = {"C19/F1": _c19_f1, "C07/F2": _c07_f2, "C07/F3": _c07_f3}
